@@ -76,8 +76,15 @@ int main() {
       ZonedDateTime v = ZonedDateTime::forEpochSeconds((acetime_t) t, tz);
       Print p; v.printTo(p);
       ZonedDateTime b = ZonedDateTime::forDateString(p.buf.c_str());
-      printf("ZDT %s %d %lld %d|%s|%d %d %d %d %d\n", db, zi, t, managed, hex(p.buf).c_str(), v.isError() ? 1 : 0,
-          b.isError() ? 1 : 0, (int) b.toEpochSeconds(), (int) b.timeOffset().toMinutes(), (int) v.timeOffset().toMinutes());
+      // the value printed for the PREVIOUS request (another zone, possibly on the same shared processor) must still
+      // print the same text now that this zone has used the processor
+      static ZonedDateTime prevV = ZonedDateTime::forError();
+      static std::string prevText;
+      int reprintOk = 1;
+      if (!prevText.empty()) { Print q; prevV.printTo(q); reprintOk = (q.buf == prevText) ? 1 : 0; }
+      prevV = v; prevText = p.buf;
+      printf("ZDT %s %d %lld %d|%s|%d %d %d %d %d %d\n", db, zi, t, managed, hex(p.buf).c_str(), v.isError() ? 1 : 0,
+          b.isError() ? 1 : 0, (int) b.toEpochSeconds(), (int) b.timeOffset().toMinutes(), (int) v.timeOffset().toMinutes(), reprintOk);
     } else if (!strcmp(cmd, "ZMAN")) {
       int sd, dd; long long t;
       sscanf(rest, "%d %d %lld", &sd, &dd, &t);
@@ -88,6 +95,17 @@ int main() {
       ZonedDateTime b = ZonedDateTime::forDateString(p.buf.c_str());
       printf("ZMAN %d %d %lld|%s|%d %d %d %d|%s\n", sd, dd, t, hex(p.buf).c_str(), v.isError() ? 1 : 0, b.isError() ? 1 : 0,
           (int) b.toEpochSeconds(), (int) b.timeOffset().toMinutes(), hex(ps.buf).c_str());
+    } else if (!strcmp(cmd, "ZC")) {
+      // zoned date-time from components in a manual zone (reaches years outside the int32 epoch-seconds range)
+      int y, mo, d, h, mi, sec, off;
+      sscanf(rest, "%d %d %d %d %d %d %d", &y, &mo, &d, &h, &mi, &sec, &off);
+      TimeZone tz = TimeZone::forTimeOffset(TimeOffset::forMinutes((int16_t) off));
+      ZonedDateTime v = ZonedDateTime::forComponents((int16_t) y, (uint8_t) mo, (uint8_t) d, (uint8_t) h, (uint8_t) mi, (uint8_t) sec, tz);
+      Print p; v.printTo(p);
+      ZonedDateTime b = ZonedDateTime::forDateString(p.buf.c_str());
+      printf("ZC %d %d %d %d %d %d %d|%s|%d %d | %d %d %d %d %d %d %d\n", y, mo, d, h, mi, sec, off, hex(p.buf).c_str(), v.isError() ? 1 : 0,
+          b.isError() ? 1 : 0, (int) b.year(), (int) b.month(), (int) b.day(), (int) b.hour(), (int) b.minute(), (int) b.second(),
+          (int) b.timeOffset().toMinutes());
     } else if (!strcmp(cmd, "ERR")) {
       Print a, b, c, d, e, f, g;
       LocalDate::forError().printTo(a);
